@@ -14,9 +14,17 @@ use crate::states::{family_of, Brain, Script, Scripted};
 
 pub const GROUPS: [&str; 7] = ["p1", "p2", "p1m1", "p1g1", "p2mm", "p2mg", "p2gg"];
 
+/// The seven supported groups by name; "hex1" / "tet1" are user-defined one-copy groups with a
+/// hexagonal / tetragonal cell (library API), used to exercise the two families no built-in group has.
 pub fn group(name: &str) -> packing::WallpaperGroup<'static> {
-    let g: WallpaperGroups = name.parse().expect("group name");
-    get_wallpaper_group(g).expect("group")
+    match name {
+        "hex1" => packing::WallpaperGroup { name: "hex1", family: packing::CrystalFamily::Hexagonal, wyckoff_str: vec!["x,y"] },
+        "tet1" => packing::WallpaperGroup { name: "tet1", family: packing::CrystalFamily::Tetragonal, wyckoff_str: vec!["x,y", "-x,-y"] },
+        _ => {
+            let g: WallpaperGroups = name.parse().expect("group name");
+            get_wallpaper_group(g).expect("group")
+        }
+    }
 }
 
 fn pick<T: Clone>(rng: &mut Pcg64Mcg, xs: &[T]) -> T {
@@ -32,7 +40,7 @@ pub fn random_req(rng: &mut Pcg64Mcg, max_steps: u64) -> Req {
         .unwrap()
         .clone();
     let inner = pick(rng, &[0u64, 1, 2, 3, 5, 7, 10, 33, 50, 1000]);
-    let kt_start = pick(rng, &[0., 0., 1e-3, 0.05, 0.5]);
+    let kt_start = pick(rng, &[0., 0., 1e-3, 0.05, 0.5, 1e-12]);
     let (kt_finish, kt_ratio) = match rng.gen_range(0, 10) {
         0 => (None, None),
         1 => (Some(0.), None),
@@ -225,6 +233,51 @@ pub fn prefix_pairs(rng: &mut Pcg64Mcg, count: usize) -> Vec<Run> {
         runs.push(a);
         runs.push(b);
     }
+    // the same on real states (the score differences that feed the convergence test are those of
+    // real packings and energies)
+    for k in 0..(count / 4).max(2) {
+        let gname = GROUPS[k % GROUPS.len()];
+        let g = group(gname);
+        let mut req = random_req(rng, 250);
+        req.steps = pick(rng, &[60u64, 120, 250]);
+        req.inner = pick(rng, &[3u64, 5, 10]);
+        req.max_step = pick(rng, &[0.01, 0.05]);
+        if req.kt_start > 0.01 {
+            req.kt_start = 0.01;
+        }
+        let thr = pick(rng, &[0., 1e-6, 1e-3, 0.1]);
+        let mut reference = req.clone();
+        reference.convergence = None;
+        let mut with = req.clone();
+        with.convergence = Some(thr);
+        let fam = family_of(gname);
+        let mut push_pair = |a: (Run, bool), b: Run, runs: &mut Vec<Run>| {
+            let (mut a, ok) = a;
+            if !ok {
+                return;
+            }
+            a.keep_hist = true;
+            let mut b = b;
+            b.prefix_ref = true;
+            runs.push(a);
+            runs.push(b);
+        };
+        if k % 2 == 0 {
+            if let (Ok(s1), Ok(s2)) = (PackedState::from_group(LineShape::polygon(4 + k % 3).unwrap(), &g),
+                                       PackedState::from_group(LineShape::polygon(4 + k % 3).unwrap(), &g)) {
+                let (ra, _) = run_real(&format!("#{} real prefix-reference {} | {}", k, gname, reference.describe()), &reference, s1, fam, false);
+                let ok = ra.panicked.is_none();
+                let (rb, _) = run_real(&format!("#{} real prefix-with-threshold {} | {}", k, gname, with.describe()), &with, s2, fam, false);
+                push_pair((ra, ok), rb, &mut runs);
+            }
+        } else if let (Ok(s1), Ok(s2)) = (PotentialState::from_group(LJShape2::from_trimer(0.637556, 120., 1.), &g),
+                                          PotentialState::from_group(LJShape2::from_trimer(0.637556, 120., 1.), &g)) {
+            let (ra, _) = run_real(&format!("#{} real prefix-reference {} lj | {}", k, gname, reference.describe()), &reference, s1, fam, false);
+            let ok = ra.panicked.is_none();
+            let (rb, _) = run_real(&format!("#{} real prefix-with-threshold {} lj | {}", k, gname, with.describe()), &with, s2, fam, false);
+            push_pair((ra, ok), rb, &mut runs);
+        }
+    }
     runs
 }
 
@@ -361,7 +414,8 @@ pub fn real_suite(rng: &mut Pcg64Mcg, count: usize, max_steps: u64) -> Vec<Run> 
     let ls = lj_shapes();
     for k in 0..count {
         // cycle through groups so each appears, randomise the rest
-        let gname = GROUPS[k % GROUPS.len()];
+        // the seven groups in turn, and now and then a user-defined hexagonal / tetragonal cell
+        let gname = if k % 9 == 7 { "hex1" } else if k % 9 == 8 { "tet1" } else { GROUPS[k % GROUPS.len()] };
         let hard = rng.gen_range(0, 3) != 0;
         let shape = if hard { pick(rng, &hs) } else { pick(rng, &ls) };
         let stages = rng.gen_range(1, 5);
